@@ -2,7 +2,7 @@
 //! model (`lean/HipVerif/Model/Views.lean` through `views_driver`).
 //!
 //! CLI (CONVENTIONS.md): `cmpdrive --tier quick|thorough --seed N --lean <views_driver> --out stats.json
-//! [--replay file.json]`; exit 0 = no disagreement, 1 = disagreement(s), 2 = internal error.
+//! [--replay file.json] [--mode all|diff|probe] [--repo <dir>] [--keep]`; exit 0 = no disagreement, 1 = disagreement(s), 2 = internal error.
 //!
 //! Inputs: every ordered pair of byte strings of length ≤ 3 over {a, b, /, ., 0x80} (0x80 only where
 //! the type is not UTF-8) plus heap-sized (> 23 bytes) strings with common prefixes.
@@ -12,6 +12,23 @@
 //! recording `Hasher`; `HashMap`/`BTreeMap` lookups and the `Borrow` laws through every `Borrow` impl.
 //! Oracle: std (and bstr) on the std view types. Model: `eqV`/`cmpV`/`hashStreamV` on the view Lean's
 //! `stdView` table assigns to the operand pair.
+//!
+//! Modes (`--mode all|diff|probe`, default `all`; `--repo <dir>` = tree the probe program is built
+//! against, default `/repo`; `--keep` keeps the generated crate):
+//! * `diff`: the hand-written differential described above.
+//! * `probe`: GENERATED runtime probes. The row list is read at run time from the driver
+//!   (`probe_rows`: every row of `Gen/CmpImpls.table` and `.borrows` with operand types, the std view
+//!   the model expects, ok|KNOWN|BAD, `file:line`); for each row a block is generated that only
+//!   instantiates the generic law checks of `probes/cmp_prelude.rs` with the row's types
+//!   (`borrow_laws::<O, T>`, `eq_row/eq_sym::<A, B>`, `ord_row/ord_sym`, `cmp_row`, `hash_row`,
+//!   `eq_marker`) on a fixed corpus; one throw-away crate under `/tmp/scratch/cmpprobe-<pid>/`
+//!   (path-depends on the repo, offline) is built and run once. A violated law is an
+//!   `impl-vs-oracle` disagreement (source `impl`) carrying the row's `file:line` and the sample,
+//!   except on the rows the model marks KNOWN (D7/D8), which feed `known_findings_reproduced`.
+//!   A row the generator cannot spell, or whose block rustc rejects (stale table), is a `monitor`
+//!   disagreement with source `coverage` (fail closed); the other rows still run.
+//!   So a NEW impl listed by the translator is probed without touching this file; an impl that has
+//!   neither hand-written calls nor an executed probe is an internal error.
 //!
 //! The two known findings (D7 `Borrow<OsStr> for HipPath`, D8 `Borrow<BStr> for HipStr`) are
 //! re-confirmed on the implementation and reported under `known_findings_reproduced`; any other
@@ -510,6 +527,7 @@ fn source_of(kind: &str, label: &str, opname: &str) -> &'static str {
         (_, "Gen.CmpImpls", "rowOk") => "model-table",
         ("impl-vs-model", _, "borrow") => "model-table",
         (_, "model", "hashloop") => "model",
+        ("monitor", _, "coverage") => "coverage",
         _ => "impl",
     }
 }
@@ -1294,6 +1312,395 @@ fn replay_witnesses(lean: &mut Lean) -> Result<Vec<Value>, String> {
     Ok(out)
 }
 
+// ---------------------------------------------------------------------------------------------
+// generated runtime probes (`--mode probe|all`): one generic law check per row of Gen/CmpImpls
+
+const CMP_PRELUDE: &str = include_str!("../../probes/cmp_prelude.rs");
+
+#[derive(Clone, Debug)]
+struct ProbeRow {
+    borrow: bool,
+    loc: String,
+    tr: String,
+    lhs: String,
+    rhs: String,
+    view: String,
+    status: String,
+    feature: String,
+    /// hash view of the owner (borrow rows), for reporting
+    raw: String,
+}
+
+impl ProbeRow {
+    /// the name the driver's `rows`/`borrows` listings use
+    fn name(&self) -> String {
+        if self.borrow {
+            let t = match self.rhs.as_str() {
+                "slice" => "[u8]",
+                "str" => "str",
+                "osStr" => "OsStr",
+                "path" => "Path",
+                "bstr" => "BStr",
+                o => o,
+            };
+            format!("Borrow<{t}> for {}", lean_operand_name(&self.lhs))
+        } else {
+            format!("{}<{}> for {}", self.tr, lean_operand_name(&self.rhs), lean_operand_name(&self.lhs))
+        }
+    }
+}
+
+fn parse_probe_rows(lines: &[String]) -> Result<Vec<ProbeRow>, String> {
+    let mut out = vec![];
+    for l in &lines[..lines.len() - 1] {
+        let ws: Vec<&str> = l.split(' ').collect();
+        match ws.as_slice() {
+            ["cmp", loc, tr, lhs, rhs, view, status, feat] => out.push(ProbeRow {
+                borrow: false,
+                loc: loc.to_string(),
+                tr: tr.to_string(),
+                lhs: lhs.to_string(),
+                rhs: rhs.to_string(),
+                view: view.to_string(),
+                status: status.to_string(),
+                feature: feat.to_string(),
+                raw: l.clone(),
+            }),
+            ["borrow", loc, owner, target, status, _eqv, _hv, feat] => out.push(ProbeRow {
+                borrow: true,
+                loc: loc.to_string(),
+                tr: "Borrow".into(),
+                lhs: owner.to_string(),
+                rhs: target.to_string(),
+                view: "-".into(),
+                status: status.to_string(),
+                feature: feat.to_string(),
+                raw: l.clone(),
+            }),
+            _ => return Err(format!("bad `probe_rows` line `{l}`")),
+        }
+    }
+    Ok(out)
+}
+
+/// Rust spelling of an operand: (type `T` of the impl, is `T` unsized). Arrays yield one spelling
+/// per probed length. `None` = the generator cannot spell it (fail closed → coverage monitor).
+fn spell_operand(op: &str, backend: &str) -> Option<Vec<(String, bool)>> {
+    let parts: Vec<&str> = op.split(':').collect();
+    let one = |s: String, unsized_: bool| Some(vec![(s, unsized_)]);
+    match parts.as_slice() {
+        ["hip", k] => {
+            let t = match *k {
+                "byt" => "HipByt",
+                "str" => "HipStr",
+                "os" => "HipOsStr",
+                "path" => "HipPath",
+                _ => return None,
+            };
+            one(format!("{t}<'static, {backend}>"), false)
+        }
+        ["std", t] | ["std", t, "ref"] => {
+            let is_ref = parts.len() == 3;
+            let base: Vec<(String, bool)> = match *t {
+                "slice" => vec![("[u8]".into(), true)],
+                "array" => (0..4).map(|n| (format!("[u8; {n}]"), false)).collect(),
+                "vec" => vec![("Vec<u8>".into(), false)],
+                "boxSlice" => vec![("Box<[u8]>".into(), false)],
+                "cowSlice" => vec![("Cow<'static, [u8]>".into(), false)],
+                "str" => vec![("str".into(), true)],
+                "string" => vec![("String".into(), false)],
+                "boxStr" => vec![("Box<str>".into(), false)],
+                "cowStr" => vec![("Cow<'static, str>".into(), false)],
+                "osStr" => vec![("OsStr".into(), true)],
+                "osString" => vec![("OsString".into(), false)],
+                "boxOsStr" => vec![("Box<OsStr>".into(), false)],
+                "cowOsStr" => vec![("Cow<'static, OsStr>".into(), false)],
+                "path" => vec![("Path".into(), true)],
+                "pathBuf" => vec![("PathBuf".into(), false)],
+                "boxPath" => vec![("Box<Path>".into(), false)],
+                "cowPath" => vec![("Cow<'static, Path>".into(), false)],
+                "bstr" => vec![("BStr".into(), true)],
+                "bstring" => vec![("BString".into(), false)],
+                _ => return None,
+            };
+            Some(if is_ref { base.into_iter().map(|(s, _)| (format!("&'static {s}"), false)).collect() } else { base })
+        }
+        _ => None,
+    }
+}
+
+fn spell_target(t: &str) -> Option<&'static str> {
+    Some(match t {
+        "slice" => "[u8]",
+        "str" => "str",
+        "osStr" => "OsStr",
+        "path" => "Path",
+        "bstr" => "BStr",
+        _ => return None,
+    })
+}
+
+/// `let <var>: Vec<(Bytes, &T)> = …;` from samples of the holder type (`&'static T` when `T` is unsized).
+fn refs_of(var: &str, t: &str, unsized_: bool) -> String {
+    if unsized_ {
+        format!("let {var}_s = samples::<&'static {t}>(); let {var}: Vec<(Bytes, &{t})> = {var}_s.iter().map(|(b, v)| (*b, *v)).collect();")
+    } else {
+        format!("let {var}_s = samples::<{t}>(); let {var}: Vec<(Bytes, &{t})> = {var}_s.iter().map(|(b, v)| (*b, v)).collect();")
+    }
+}
+
+struct ProbeBlock {
+    row: usize,
+    first_line: usize,
+    last_line: usize,
+}
+
+struct ProbeOutcome {
+    rows: Vec<ProbeRow>,
+    /// rows (index) the generator could not spell, with the reason
+    unspellable: Vec<(usize, String)>,
+    /// rows (index) whose block did not compile, with rustc's message
+    uncompilable: Vec<(usize, String)>,
+    blocks: usize,
+    executed_rows: BTreeSet<usize>,
+    checks: u64,
+    /// (row index, backend, law) → (count, first witness line)
+    violations: BTreeMap<(usize, String), (u64, String)>,
+    build_ms: u128,
+    run_ms: u128,
+}
+
+fn probe_phase(lean: &mut Lean, repo_dir: &Path, tier: &str, keep: bool) -> Result<ProbeOutcome, String> {
+    let rows = parse_probe_rows(&lean.ask_multi("probe_rows")?)?;
+    let keyset: BTreeSet<(String, String, String)> = rows.iter().filter(|r| !r.borrow).map(|r| (r.tr.clone(), r.lhs.clone(), r.rhs.clone())).collect();
+    let mut skip: BTreeSet<usize> = BTreeSet::new();
+    let mut uncompilable: Vec<(usize, String)> = vec![];
+    let dir = std::path::PathBuf::from(format!("/tmp/scratch/cmpprobe-{}", std::process::id()));
+    let cleanup = |dir: &Path| {
+        if !keep {
+            let _ = std::fs::remove_dir_all(dir);
+        }
+    };
+    let t0 = std::time::Instant::now();
+    // rows whose block does not compile (stale table / impl not as listed) are reported and left out
+    // of a second build, so that the other rows still run
+    let (blocks, unspellable) = loop {
+    let mut main_src = String::from("fn main() {\n");
+    let prelude_lines = CMP_PRELUDE.lines().count();
+    let mut line = prelude_lines + 2; // 1-based line of the next line to be written
+    let mut blocks: Vec<ProbeBlock> = vec![];
+    let mut unspellable = vec![];
+    let all_b = ["Arc", "Rc", "Unique"];
+    let one_b: &[&str] = if tier == "thorough" { &all_b } else { &all_b[..1] };
+    let pair_b: &[(&str, &str)] = &[("Arc", "Arc"), ("Arc", "Rc"), ("Rc", "Unique"), ("Unique", "Arc")];
+    for (ri, r) in rows.iter().enumerate() {
+        if skip.contains(&ri) {
+            continue;
+        }
+        if !matches!(r.feature.as_str(), "-" | "std" | "bstr" | "std+bstr" | "bstr+std") {
+            unspellable.push((ri, format!("unknown cfg feature `{}`", r.feature)));
+            continue;
+        }
+        let mut emit = |body: String, blocks: &mut Vec<ProbeBlock>, line: &mut usize| {
+            let n = body.lines().count();
+            blocks.push(ProbeBlock { row: ri, first_line: *line, last_line: *line + n - 1 });
+            main_src.push_str(&body);
+            *line += n;
+        };
+        let rowtag = |b: &str| format!("{}|{}|{}", ri, r.name(), b);
+        if r.borrow {
+            let Some(t) = spell_target(&r.rhs) else {
+                unspellable.push((ri, format!("unknown Borrow target `{}`", r.rhs)));
+                continue;
+            };
+            for b in all_b {
+                let Some(o) = spell_operand(&r.lhs, b) else {
+                    unspellable.push((ri, format!("unknown owner `{}`", r.lhs)));
+                    break;
+                };
+                let o = &o[0].0;
+                emit(format!("    {{ let xs = samples::<{o}>();\n      borrow_laws::<{o}, {t}>({:?}, &xs); }}\n", rowtag(b)), &mut blocks, &mut line);
+            }
+            continue;
+        }
+        let lhs_hip = r.lhs.starts_with("hip:");
+        let rhs_hip = r.rhs.starts_with("hip:");
+        match r.tr.as_str() {
+            "PartialEq" | "PartialOrd" => {
+                if r.view == "none" {
+                    unspellable.push((ri, "the model names no std view for this operand pair".into()));
+                    continue;
+                }
+                let backs: Vec<(&str, &str)> = if lhs_hip && rhs_hip { pair_b.to_vec() } else { one_b.iter().map(|b| (*b, *b)).collect() };
+                let has_rev = keyset.contains(&(r.tr.clone(), r.rhs.clone(), r.lhs.clone())) && r.lhs <= r.rhs;
+                let (f_row, f_sym) = if r.tr == "PartialEq" { ("eq_row", "eq_sym") } else { ("ord_row", "ord_sym") };
+                'b: for (b1, b2) in backs {
+                    let (Some(ls), Some(rs)) = (spell_operand(&r.lhs, b1), spell_operand(&r.rhs, b2)) else {
+                        unspellable.push((ri, format!("unknown operand `{}` or `{}`", r.lhs, r.rhs)));
+                        break 'b;
+                    };
+                    let btag = if lhs_hip && rhs_hip { format!("{b1}/{b2}") } else { b1.to_string() };
+                    for (lt, lu) in &ls {
+                        for (rt, ru) in &rs {
+                            let mut body = format!("    {{ {}\n      {}\n      {f_row}::<{lt}, {rt}>({:?}, {:?}, &xr, &yr);\n", refs_of("xr", lt, *lu), refs_of("yr", rt, *ru), rowtag(&btag), r.view);
+                            if has_rev {
+                                body.push_str(&format!("      {f_sym}::<{lt}, {rt}>({:?}, &xr, &yr);\n", rowtag(&btag)));
+                            }
+                            body.push_str("    }\n");
+                            emit(body, &mut blocks, &mut line);
+                        }
+                    }
+                }
+            }
+            "Ord" | "Eq" | "Hash" => {
+                if !lhs_hip || r.lhs != r.rhs {
+                    unspellable.push((ri, format!("`{}` row between different / non-Hip types", r.tr)));
+                    continue;
+                }
+                if r.tr != "Eq" && r.view == "none" {
+                    unspellable.push((ri, "the model names no std view for this row".into()));
+                    continue;
+                }
+                for b in all_b {
+                    let Some(o) = spell_operand(&r.lhs, b) else {
+                        unspellable.push((ri, format!("unknown operand `{}`", r.lhs)));
+                        break;
+                    };
+                    let o = &o[0].0;
+                    let call = match r.tr.as_str() {
+                        "Ord" => format!("cmp_row::<{o}>({:?}, {:?}, &xs);", rowtag(b), r.view),
+                        "Hash" => format!("hash_row::<{o}>({:?}, {:?}, &xs);", rowtag(b), r.view),
+                        _ => format!("eq_marker::<{o}>({:?}, &xs);", rowtag(b)),
+                    };
+                    emit(format!("    {{ let xs = samples::<{o}>();\n      {call} }}\n"), &mut blocks, &mut line);
+                }
+            }
+            t => unspellable.push((ri, format!("unknown trait `{t}`"))),
+        }
+    }
+    main_src.push_str(&format!("    println!(\"DONE\\t{}\");\n}}\n", blocks.len()));
+
+    // ---- the throw-away crate
+    if skip.is_empty() {
+        let _ = std::fs::remove_dir_all(&dir);
+    }
+    let wr = |p: std::path::PathBuf, c: &str| -> Result<(), String> {
+        if let Some(d) = p.parent() {
+            std::fs::create_dir_all(d).map_err(|e| format!("mkdir {d:?}: {e}"))?;
+        }
+        std::fs::write(&p, c).map_err(|e| format!("write {p:?}: {e}"))
+    };
+    let repo_abs = std::fs::canonicalize(repo_dir).map_err(|e| format!("--repo {repo_dir:?}: {e}"))?;
+    wr(
+        dir.join("Cargo.toml"),
+        &format!(
+            "[package]\nname = \"probe_cmp\"\nversion = \"0.0.0\"\nedition = \"2021\"\npublish = false\n\n[workspace]\n\n[dependencies]\nhipstr = {{ path = {:?}, features = [\"bstr\"] }}\nbstr = {{ version = \"1.3\", default-features = false, features = [\"alloc\"] }}\n\n[profile.dev]\nopt-level = 0\ndebug = false\n",
+            repo_abs.to_string_lossy()
+        ),
+    )?;
+    wr(dir.join(".cargo/config.toml"), "[net]\noffline = true\n")?;
+    let lock = [repo_abs.join("Cargo.lock"), std::path::PathBuf::from(concat!(env!("CARGO_MANIFEST_DIR"), "/Cargo.lock"))].into_iter().find(|p| p.exists()).ok_or("no Cargo.lock in the repo or next to the harness")?;
+    std::fs::copy(&lock, dir.join("Cargo.lock")).map_err(|e| format!("copy {lock:?}: {e}"))?;
+    wr(dir.join("src/main.rs"), &format!("{CMP_PRELUDE}\n{main_src}"))?;
+
+    let out = Command::new("cargo")
+        .args(["build", "--message-format=json"])
+        .current_dir(&dir)
+        .env("CARGO_TARGET_DIR", dir.join("target"))
+        .env_remove("RUSTFLAGS")
+        .output()
+        .map_err(|e| format!("cannot run cargo: {e}"))?;
+    let mut newly: Vec<usize> = vec![];
+    let mut other_errors = vec![];
+    for l in String::from_utf8_lossy(&out.stdout).lines() {
+        let Ok(v) = serde_json::from_str::<Value>(l) else { continue };
+        if v["reason"] != "compiler-message" || v["message"]["level"] != "error" {
+            continue;
+        }
+        let text = v["message"]["message"].as_str().unwrap_or("").to_string();
+        if text.starts_with("aborting due to") || text.starts_with("could not compile") {
+            continue;
+        }
+        let ln = v["message"]["spans"].as_array().and_then(|s| s.iter().find(|s| s["is_primary"] == true)).and_then(|s| s["line_start"].as_u64()).unwrap_or(0) as usize;
+        let target = v["target"]["name"].as_str().unwrap_or("");
+        match blocks.iter().find(|b| target == "probe_cmp" && b.first_line <= ln && ln <= b.last_line) {
+            Some(b) => {
+                if !uncompilable.iter().any(|(r, _)| *r == b.row) {
+                    uncompilable.push((b.row, text));
+                    newly.push(b.row);
+                }
+            }
+            None => other_errors.push(format!("{target}:{ln}: {text}")),
+        }
+    }
+    if !out.status.success() && (newly.is_empty() || skip.len() > 64) {
+        let err = String::from_utf8_lossy(&out.stderr);
+        cleanup(&dir);
+        return Err(format!("the probe crate does not build: {} {}", other_errors.join(" | "), err.lines().rev().take(5).collect::<Vec<_>>().join(" | ")));
+    }
+    if out.status.success() {
+        break (blocks, unspellable);
+    }
+    skip.extend(newly);
+    };
+    let build_ms = t0.elapsed().as_millis();
+    let mut outcome = ProbeOutcome {
+        rows,
+        unspellable,
+        uncompilable,
+        blocks: blocks.len(),
+        executed_rows: BTreeSet::new(),
+        checks: 0,
+        violations: BTreeMap::new(),
+        build_ms,
+        run_ms: 0,
+    };
+    let t1 = std::time::Instant::now();
+    let run = Command::new(dir.join("target/debug/probe_cmp")).output().map_err(|e| format!("cannot run the probe program: {e}"))?;
+    outcome.run_ms = t1.elapsed().as_millis();
+    let stdout = String::from_utf8_lossy(&run.stdout).to_string();
+    cleanup(&dir);
+    let mut done = false;
+    for l in stdout.lines() {
+        let f: Vec<&str> = l.split('\t').collect();
+        let row_of = |tag: &str| -> Option<(usize, String)> {
+            let mut it = tag.splitn(3, '|');
+            let ri: usize = it.next()?.parse().ok()?;
+            let _name = it.next()?;
+            Some((ri, it.next()?.to_string()))
+        };
+        match f.as_slice() {
+            ["R", tag, n] => {
+                let (ri, _) = row_of(tag).ok_or_else(|| format!("bad probe output `{l}`"))?;
+                outcome.executed_rows.insert(ri);
+                outcome.checks += n.parse::<u64>().unwrap_or(0);
+            }
+            ["V", tag, law, x, y, detail] => {
+                let (ri, b) = row_of(tag).ok_or_else(|| format!("bad probe output `{l}`"))?;
+                let e = outcome.violations.entry((ri, law.to_string())).or_insert((0, String::new()));
+                if e.1.is_empty() {
+                    let show = |h: &str| match unhex(h) {
+                        Some(bytes) => format!("{h}({:?})", String::from_utf8_lossy(&bytes)),
+                        None => h.to_string(),
+                    };
+                    e.1 = format!("[{b}] {law} violated for x={} y={}: {detail}", show(x), show(y));
+                }
+            }
+            ["C", tag, law, n] => {
+                let (ri, _) = row_of(tag).ok_or_else(|| format!("bad probe output `{l}`"))?;
+                let e = outcome.violations.entry((ri, law.to_string())).or_insert((0, String::new()));
+                e.0 += n.parse::<u64>().unwrap_or(0);
+            }
+            ["DONE", _] => done = true,
+            _ => return Err(format!("bad probe output `{l}`")),
+        }
+    }
+    if !run.status.success() || !done {
+        return Err(format!("the probe program failed ({}): {}", run.status, String::from_utf8_lossy(&run.stderr).lines().rev().take(3).collect::<Vec<_>>().join(" | ")));
+    }
+    Ok(outcome)
+}
+
 fn main() {
     let cli = parse_cli();
     let code = match real_main(&cli) {
@@ -1315,8 +1722,37 @@ fn real_main(cli: &hipverif_harness::util::Cli) -> Result<i32, String> {
     // silence the default panic message of caught panics
     std::panic::set_hook(Box::new(|_| {}));
 
+    // `--mode all|diff|probe` (default all), `--repo <dir>` (default /repo: the tree the generated probe
+    // program is built against), `--keep` (keep the generated crate)
+    let mut mode = "all".to_string();
+    let mut repo_dir = PathBuf::from("/repo");
+    let mut keep = false;
+    let mut i = 0;
+    while i < cli.extra.len() {
+        match cli.extra[i].as_str() {
+            "--mode" => {
+                i += 1;
+                mode = cli.extra.get(i).cloned().ok_or("--mode value")?;
+            }
+            "--repo" => {
+                i += 1;
+                repo_dir = PathBuf::from(cli.extra.get(i).ok_or("--repo value")?);
+            }
+            "--keep" => keep = true,
+            o => return Err(format!("unknown argument {o}")),
+        }
+        i += 1;
+    }
+    if !matches!(mode.as_str(), "all" | "diff" | "probe") {
+        return Err(format!("unknown --mode {mode}"));
+    }
+    let do_diff = mode != "probe";
+    let do_probe = mode != "diff" && cli.replay.is_none();
+
     let mut cx = Cx::new();
-    let (pool, master, prefix_idx) = if let Some(file) = &cli.replay {
+    let (pool, master, prefix_idx) = if !do_diff {
+        (vec![], 0usize, vec![])
+    } else if let Some(file) = &cli.replay {
         // replay: the recorded op line(s) give the two byte strings and the label prefix to trace
         let txt = std::fs::read_to_string(file).map_err(|e| format!("read {file}: {e}"))?;
         let v: Value = serde_json::from_str(&txt).map_err(|e| format!("parse {file}: {e}"))?;
@@ -1346,8 +1782,14 @@ fn real_main(cli: &hipverif_harness::util::Cli) -> Result<i32, String> {
     let t_model = t0.elapsed();
     let stds: Vec<StdVals> = pool.iter().map(|b| StdVals::new(b)).collect();
     let mut env = Env { pool: &pool, stds: &stds, model, lean };
-    run(&mut cx, &mut env, master, &prefix_idx)?;
+    if do_diff {
+        run(&mut cx, &mut env, master, &prefix_idx)?;
+    }
     let mut lean = env.lean;
+
+    // generated generic probes: every row the driver lists
+    let probe = if do_probe { Some(probe_phase(&mut lean, &repo_dir, &cli.tier, keep)?) } else { None };
+    let probed_names: BTreeSet<String> = probe.as_ref().map_or(BTreeSet::new(), |p| p.executed_rows.iter().map(|ri| p.rows[*ri].name()).collect());
 
     // coverage of the generated table by the harness
     let rows = lean.ask_multi("rows")?;
@@ -1389,10 +1831,48 @@ fn real_main(cli: &hipverif_harness::util::Cli) -> Result<i32, String> {
             _ => bad_rows.push(l.clone()),
         }
     }
-    if !replaying {
+    // an impl without hand-written calls is acceptable only when the generated probes executed it
+    let uncovered_by_hand = uncovered.clone();
+    // (rows the probe generator could not spell / rustc rejected are reported as `monitor` coverage below)
+    let cov_reported: BTreeSet<String> = probe.as_ref().map_or(BTreeSet::new(), |p| p.unspellable.iter().chain(p.uncompilable.iter()).map(|(ri, _)| p.rows[*ri].name()).collect());
+    uncovered.retain(|u| {
+        let name = u.splitn(2, ' ').nth(1).unwrap_or("");
+        !probed_names.contains(name) && !cov_reported.contains(name)
+    });
+    if !replaying && (do_diff || do_probe) {
         for u in &uncovered {
-            cx.internal.push(format!("impl in Gen/CmpImpls not exercised by cmpdrive: {u}"));
+            cx.internal.push(format!("impl in Gen/CmpImpls exercised neither by hand-written calls nor by a generated probe: {u}"));
         }
+    }
+    // probe verdicts
+    let mut probe_known: BTreeMap<String, (u64, String)> = BTreeMap::new();
+    if let Some(p) = &probe {
+        for (ri, why) in &p.unspellable {
+            let r = &p.rows[*ri];
+            cx.disagree("monitor", &r.name(), "coverage", format!("probe_rows {}", r.raw), "a generated runtime probe for this row".into(), format!("cannot be generated: {why} @ {}", r.loc), 0);
+        }
+        for (ri, msg) in &p.uncompilable {
+            let r = &p.rows[*ri];
+            cx.disagree("monitor", &r.name(), "coverage", format!("probe_rows {}", r.raw), "the generated probe for this row compiles (the impl exists as listed)".into(), format!("rustc: {msg} @ {}", r.loc), 0);
+        }
+        for ((ri, law), (n, first)) in &p.violations {
+            let r = &p.rows[*ri];
+            let name = r.name();
+            if r.borrow && r.status == "KNOWN" {
+                let e = probe_known.entry(name).or_insert((0, String::new()));
+                e.0 += n;
+                if e.1.is_empty() {
+                    e.1 = format!("{}: {first} @ {}", r.name(), r.loc);
+                }
+                continue;
+            }
+            let law_s: &'static str = Box::leak(law.clone().into_boxed_str());
+            cx.disagree("impl-vs-oracle", &name, law_s, format!("probe {} {name} {first}", r.loc), format!("law holds: {law}"), format!("{n} violation(s) @ {}", r.loc), 0);
+        }
+        // a row the model accepts as a known finding must actually misbehave; a row it rejects (BAD)
+        // is already reported through `rows_c12` / the table theorems
+        cx.evaluations += p.checks;
+        *cx.distribution.entry("generated probes".into()).or_insert(0) += p.checks;
     }
 
     // Borrow violations: known findings vs disagreements
@@ -1402,6 +1882,11 @@ fn real_main(cli: &hipverif_harness::util::Cli) -> Result<i32, String> {
     for (id, name) in known_ids {
         let entry = known.iter_mut().find(|k| k["id"] == id).unwrap();
         let sweep = cx.borrow_violations.remove(name);
+        let pk = probe_known.get(name);
+        entry["probe_violations"] = json!(pk.map_or(0, |p| p.0));
+        if let Some(p) = pk {
+            entry["probe_first"] = json!(p.1);
+        }
         entry["model_says_incoherent"] = json!(model_known.contains(name));
         match &sweep {
             Some((w, n)) => {
@@ -1410,7 +1895,7 @@ fn real_main(cli: &hipverif_harness::util::Cli) -> Result<i32, String> {
             }
             None => entry["sweep_violations"] = json!(0),
         }
-        let reproduced = entry["reproduced"] == json!(true) && (sweep.is_some() || replaying);
+        let reproduced = entry["reproduced"] == json!(true) && (sweep.is_some() || replaying || !do_diff) && (pk.is_some() || !do_probe);
         entry["reproduced"] = json!(reproduced);
         if !reproduced {
             not_reproduced.push(id);
@@ -1450,6 +1935,18 @@ fn real_main(cli: &hipverif_harness::util::Cli) -> Result<i32, String> {
         "table_rows": rows.len() - 1,
         "borrow_rows": borrows.len() - 1,
         "uncovered_impls": uncovered,
+        "mode": mode,
+        "impls_without_handwritten_calls": uncovered_by_hand,
+        "probe": probe.as_ref().map(|p| json!({
+            "rows_listed": p.rows.len(),
+            "rows_executed": p.executed_rows.len(),
+            "blocks": p.blocks,
+            "checks": p.checks,
+            "unspellable_rows": p.unspellable.len(),
+            "uncompilable_rows": p.uncompilable.len(),
+            "build_ms": p.build_ms as u64,
+            "run_ms": p.run_ms as u64,
+        })),
         "known_findings_reproduced": known.iter().filter(|k| k["reproduced"] == json!(true)).collect::<Vec<_>>(),
         "known_findings_not_reproduced": known.iter().filter(|k| k["reproduced"] != json!(true)).collect::<Vec<_>>(),
         "internal_errors": cx.internal,
